@@ -72,6 +72,22 @@ fn funcs() -> Vec<Func> {
         Func { name: "nested-in-binary", tmpl: |x| format!("(toInteger({x}) + 1)"), good: vec![PV::Int(7), s("12"), PV::Null], bad: vec![PV::Bool(true), l(vec![PV::Int(1)])], aggregate: false },
         Func { name: "nested-in-list", tmpl: |x| format!("[toBoolean({x}), 1]"), good: vec![PV::Bool(true), s("true"), PV::Null], bad: vec![PV::Int(1), PV::f(1.0)], aggregate: false },
         Func { name: "nested-in-case", tmpl: |x| format!("CASE WHEN toBoolean({x}) THEN 1 ELSE 0 END"), good: vec![PV::Bool(true), s("false"), PV::Null], bad: vec![PV::Int(1), PV::f(1.0)], aggregate: false },
+        // the failing call in other operand positions (an executor that decides per projection
+        // whether it has to run the runtime check must look at every operand)
+        Func { name: "binary-right", tmpl: |x| format!("(10 + toInteger({x}))"), good: vec![PV::Int(7), s("12"), PV::Null], bad: vec![PV::Bool(true), l(vec![PV::Int(1)])], aggregate: false },
+        Func { name: "binary-right-mul", tmpl: |x| format!("(2 * toInteger({x}))"), good: vec![PV::Int(7), s("12"), PV::Null], bad: vec![PV::Bool(true), m("a", PV::Int(1))], aggregate: false },
+        Func { name: "compare-right", tmpl: |x| format!("(1 < toInteger({x}))"), good: vec![PV::Int(7), s("12"), PV::Null], bad: vec![PV::Bool(true), l(vec![PV::Int(1)])], aggregate: false },
+        Func { name: "compare-left", tmpl: |x| format!("(toInteger({x}) >= 3)"), good: vec![PV::Int(7), s("12"), PV::Null], bad: vec![PV::Bool(false), l(vec![])], aggregate: false },
+        Func { name: "in-list-element", tmpl: |x| format!("(1 IN [2, toInteger({x})])"), good: vec![PV::Int(1), s("12"), PV::Null], bad: vec![PV::Bool(true), l(vec![PV::Int(1)])], aggregate: false },
+        Func { name: "nested-in-map", tmpl: |x| format!("{{a: 1, b: toBoolean({x})}}"), good: vec![PV::Bool(true), s("true"), PV::Null], bad: vec![PV::Int(1), PV::f(1.0)], aggregate: false },
+        Func { name: "function-argument", tmpl: |x| format!("abs(toInteger({x}))"), good: vec![PV::Int(-7), s("12"), PV::Null], bad: vec![PV::Bool(true), l(vec![PV::Int(1)])], aggregate: false },
+        Func { name: "string-concat-right", tmpl: |x| format!("('a' + toString({x}))"), good: vec![PV::Int(7), s("b"), PV::Null], bad: vec![l(vec![PV::Int(1)]), m("a", PV::Int(1))], aggregate: false },
+        Func { name: "unary-minus", tmpl: |x| format!("(-toInteger({x}))"), good: vec![PV::Int(7), s("12"), PV::Null], bad: vec![PV::Bool(true), l(vec![PV::Int(1)])], aggregate: false },
+        Func { name: "case-else", tmpl: |x| format!("CASE WHEN 1 = 2 THEN 1 ELSE toInteger({x}) END"), good: vec![PV::Int(7), s("12"), PV::Null], bad: vec![PV::Bool(true), l(vec![PV::Int(1)])], aggregate: false },
+        Func { name: "coalesce-second", tmpl: |x| format!("coalesce(null, toInteger({x}))"), good: vec![PV::Int(7), s("12"), PV::Null], bad: vec![PV::Bool(true), l(vec![PV::Int(1)])], aggregate: false },
+        Func { name: "is-null-of-call", tmpl: |x| format!("(toInteger({x}) IS NULL)"), good: vec![PV::Int(7), s("x"), PV::Null], bad: vec![PV::Bool(true), l(vec![PV::Int(1)])], aggregate: false },
+        Func { name: "index-right", tmpl: |x| format!("[10, 20, 30][toInteger({x})]"), good: vec![PV::Int(0), s("1"), PV::Null], bad: vec![PV::Bool(true), l(vec![PV::Int(1)])], aggregate: false },
+        Func { name: "second-of-three", tmpl: |x| format!("(1 + toInteger({x}) + 2)"), good: vec![PV::Int(7), s("12"), PV::Null], bad: vec![PV::Bool(true), l(vec![PV::Int(1)])], aggregate: false },
         // aggregates with an out-of-range percentile: the poison "row" is the percentile itself
         Func { name: "percentileDisc", tmpl: |x| format!("percentileDisc(v, {x})"), good: vec![PV::f(0.0), PV::f(0.5), PV::f(1.0), PV::Int(1)], bad: vec![PV::f(2.0), PV::f(-0.5), PV::Int(7)], aggregate: true },
         Func { name: "percentileCont", tmpl: |x| format!("percentileCont(v, {x})"), good: vec![PV::f(0.0), PV::f(0.5), PV::f(1.0)], bad: vec![PV::f(1.5), PV::f(-1.0), PV::Int(-3)], aggregate: true },
@@ -246,7 +262,7 @@ pub fn run(ctx: &mut RunCtx) {
             ctx.note(format!("wrapper {w} not usable ({}): {q}", e.text()));
         }
     }
-    let n = ctx.tier.pick(40_000, 10_000_000);
+    let n = ctx.tier.pick(1_600_000, 10_000_000);
     ctx.explore(
         "poison-row",
         "15 raising projections (conversions, index/key type errors, labels()/type() on non-entities, comprehension, nested in binary/list/CASE, percentileDisc/Cont out of range) x 27 wrappers, poison row at a generated position among 0-5 good rows, literals or parameters; non-trivial = the plain RETURN form raised (and the same rows without the poison row did not)",
